@@ -5,7 +5,7 @@ mkdir -p /tmp/mut/results
 for id in $(cat /tmp/mut/done.txt); do
   d=/tmp/mut/$id
   for n in 1 2; do
-    if [ -f $d/out/patch$n.diff ] && [ -f $d/out/demo$n.py ] && [ ! -f /tmp/mut/results/${id}_$n.json ]; then
+    if [ -f $d/out/patch$n.diff ] && [ -f $d/out/demo$n.py ] && [ ! -f /tmp/mut/results/${id}_$n.json ] && [ ! -f /tmp/mut/results/${id}_$n.json.tmp ]; then
       python3 /verif/tools/eval_mutant.py $d $n /tmp/verif_eval > /tmp/mut/results/${id}_$n.json.tmp 2>/tmp/mut/results/${id}_$n.err && mv /tmp/mut/results/${id}_$n.json.tmp /tmp/mut/results/${id}_$n.json
     fi
   done
